@@ -1,0 +1,141 @@
+// Verification-only stand-in for the kernel eBPF maps (compiled only with `--cfg gpa_verif`).
+//
+// When the environment variable GPA_VERIF_DIR names a directory, the audit map and the
+// policy map are represented by files under it, in the byte format the kernel program uses:
+//   $GPA_VERIF_DIR/audit/<hex of sock_addr_audit_key bytes>   = sock_addr_audit_entry bytes
+//   $GPA_VERIF_DIR/policy/<hex of destination_entry bytes>    = destination_entry bytes
+// Every operation appends one line to $GPA_VERIF_DIR/events.log with a single O_APPEND write.
+// Without GPA_VERIF_DIR every function returns None and the production path is taken.
+use super::ebpf_obj::{destination_entry, sock_addr_audit_entry, sock_addr_audit_key};
+use crate::common::error::{BpfErrorType, Error};
+use crate::common::result::Result;
+use crate::redirector::AuditEntry;
+use std::io::Write;
+use std::path::PathBuf;
+use std::sync::atomic::{AtomicU64, Ordering};
+
+static SEQ: AtomicU64 = AtomicU64::new(0);
+
+fn dir() -> Option<PathBuf> {
+    std::env::var_os("GPA_VERIF_DIR").map(PathBuf::from)
+}
+
+fn hex_u32s(words: &[u32]) -> String {
+    let mut s = String::new();
+    for w in words {
+        for b in w.to_ne_bytes() {
+            s.push_str(&format!("{:02x}", b));
+        }
+    }
+    s
+}
+
+fn event(dir: &std::path::Path, line: String) {
+    let seq = SEQ.fetch_add(1, Ordering::SeqCst);
+    let mut ts = libc::timespec {
+        tv_sec: 0,
+        tv_nsec: 0,
+    };
+    // SAFETY: clock_gettime writes into the provided, valid timespec.
+    unsafe { libc::clock_gettime(libc::CLOCK_MONOTONIC, &mut ts) };
+    let ns = ts.tv_sec as u128 * 1_000_000_000 + ts.tv_nsec as u128;
+    let text = format!("{} {} {}\n", seq, ns, line);
+    if let Ok(mut f) = std::fs::OpenOptions::new()
+        .create(true)
+        .append(true)
+        .open(dir.join("events.log"))
+    {
+        let _ = f.write_all(text.as_bytes());
+    }
+}
+
+pub fn lookup(source_port: u16) -> Option<Result<AuditEntry>> {
+    let dir = dir()?;
+    let key = sock_addr_audit_key::from_source_port(source_port).to_array();
+    let path = dir.join("audit").join(hex_u32s(&key));
+    let result = match std::fs::read(&path) {
+        Ok(bytes) if bytes.len() == 20 => {
+            let mut value = [0u32; 5];
+            for (i, w) in value.iter_mut().enumerate() {
+                *w = u32::from_ne_bytes([
+                    bytes[i * 4],
+                    bytes[i * 4 + 1],
+                    bytes[i * 4 + 2],
+                    bytes[i * 4 + 3],
+                ]);
+            }
+            let audit_value = sock_addr_audit_entry::from_array(value);
+            Ok(AuditEntry {
+                logon_id: audit_value.logon_id as u64,
+                process_id: audit_value.process_id,
+                is_admin: audit_value.is_root as i32,
+                destination_ipv4: audit_value.destination_ipv4,
+                destination_port: audit_value.destination_port as u16,
+            })
+        }
+        _ => Err(Error::Bpf(BpfErrorType::MapLookupElem(
+            source_port.to_string(),
+            "stand-in: no such element".to_string(),
+        ))),
+    };
+    event(
+        &dir,
+        format!(
+            "lookup {} {}",
+            source_port,
+            if result.is_ok() { "hit" } else { "miss" }
+        ),
+    );
+    Some(result)
+}
+
+pub fn remove(source_port: u16) -> Option<Result<()>> {
+    let dir = dir()?;
+    let key = sock_addr_audit_key::from_source_port(source_port).to_array();
+    let path = dir.join("audit").join(hex_u32s(&key));
+    let result = std::fs::remove_file(&path).map_err(|e| {
+        Error::Bpf(BpfErrorType::MapDeleteElem(
+            source_port.to_string(),
+            format!("stand-in: {}", e),
+        ))
+    });
+    event(
+        &dir,
+        format!(
+            "remove {} {}",
+            source_port,
+            if result.is_ok() { "hit" } else { "miss" }
+        ),
+    );
+    Some(result)
+}
+
+pub fn record_policy(endpoint: &str, dest_ipv4: u32, dest_port: u16, redirect: bool) -> Option<()> {
+    let dir = dir()?;
+    let key = destination_entry::from_ipv4(dest_ipv4, dest_port).to_array();
+    let local_ip = crate::redirector::string_to_ip(crate::common::constants::PROXY_AGENT_IP);
+    let value = destination_entry::from_ipv4(local_ip, crate::common::constants::PROXY_AGENT_PORT)
+        .to_array();
+    let path = dir.join("policy").join(hex_u32s(&key));
+    let _ = std::fs::create_dir_all(dir.join("policy"));
+    if redirect {
+        let mut bytes = Vec::new();
+        for w in value {
+            bytes.extend_from_slice(&w.to_ne_bytes());
+        }
+        let _ = std::fs::write(&path, bytes);
+    } else {
+        let _ = std::fs::remove_file(&path);
+    }
+    event(
+        &dir,
+        format!(
+            "policy {} {} {} {}",
+            endpoint,
+            hex_u32s(&key),
+            hex_u32s(&value),
+            redirect
+        ),
+    );
+    Some(())
+}
